@@ -62,6 +62,7 @@ type FuncSpec struct {
 	NilRecv   bool     // the receiver may be nil (no implicit non-nil assumption)
 	Spawns    []string // parameters holding functions that run later: their precondition is checked at the call
 	AtCalls   []*AtCall // assertions over the caller's locals right before a call
+	Shrinks   bool      // the operation only removes entries from lock-protected ghost state (no lock needed for the invariant)
 	Preserves []*Clause // with `modifies heap`: whole storages that are nevertheless left alone
 }
 
@@ -193,7 +194,7 @@ var topKeywords = map[string]bool{
 var subKeywords = map[string]bool{
 	"requires": true, "ensures": true, "modifies": true, "loop": true, "protects": true,
 	"invariant": true, "assume": true, "inline": true, "maypanic": true, "nosafety": true,
-	"atcall": true, "preserves": true, "params": true, "results": true, "let": true, "letold": true, "forall": true, "note": true, "property": true,
+	"atcall": true, "preserves": true, "shrinks": true, "params": true, "results": true, "let": true, "letold": true, "forall": true, "note": true, "property": true,
 	"selfcomp": true, "held": true, "transparent": true, "ghostset": true, "spawns": true, "nilrecv": true, "rely": true,
 }
 
@@ -494,7 +495,12 @@ func (db *SpecDB) loadSpecFile(path, pkgPath string, assumed bool) error {
 			if len(f) != 3 || f[1] != "method" {
 				return fmt.Errorf("%s: interface directive: interface <Type> method <Name>", where)
 			}
-			ik := expandTypeKey(f[0], pkgPath, imports)
+			inst := ""
+			if j := strings.Index(f[0], "<"); j >= 0 {
+				inst = f[0][j:]
+				f[0] = f[0][:j]
+			}
+			ik := expandTypeKey(f[0], pkgPath, imports) + inst
 			curFunc = &FuncSpec{Key: ik + "." + f[2], Pkg: pkgPath, Assumed: true, Loops: map[int]*LoopSpec{}, File: path, Line: d.line, Imports: imports, Iface: ik, Method: f[2], NoSafety: map[string]bool{}}
 			db.Ifaces[curFunc.Key] = curFunc
 		default:
@@ -713,6 +719,8 @@ func parseFuncSub(fs *FuncSpec, d rawDirective, path string) error {
 			}
 			fs.Preserves = append(fs.Preserves, cl)
 		}
+	case "shrinks":
+		fs.Shrinks = true
 	case "nilrecv":
 		fs.NilRecv = true
 	case "rely":
